@@ -276,7 +276,8 @@ impl<'a> Gen<'a> {
                     }
                     20 if n > 2 && s == Sc::F => {
                         let m = Ty::M(n, n);
-                        let a = self.atom(&m, d.min(1)); let b = self.expr(t, d);
+                        // half of the products have plain operands on both sides
+                        let a = self.atom(&m, d.min(1)); let b = if self.rng.chance(1, 2) { self.leaf(t) } else { self.expr(t, d) };
                         if self.rng.chance(1, 2) { format!("mul({}, {})", a, b) } else { format!("mul({}, {})", b, a) }
                     }
                     _ => self.leaf(t),
